@@ -530,7 +530,7 @@ func main() {
 	}
 	r := report.New("C19")
 	thoroughTier = r.Thorough()
-	scriptCap := r.Pick(1500, 6000)
+	scriptCap := r.Pick(3000, 100000)
 
 	var plans []*plan
 	var starts []int
